@@ -315,8 +315,14 @@ var fallbackBackends = []backend{
 }
 
 func raceFallback(body string, names []string, vars []*Term, wantModel bool) Result {
+	// every race starts up to four solver processes: with all workers racing at once the
+	// machine is oversubscribed and queries that need 15 s alone run into the 90 s cap
+	raceSlots <- struct{}{}
+	defer func() { <-raceSlots }()
 	return raceBackends(fallbackBackends, raceTimeoutMS, body, names, vars, wantModel)
 }
+
+var raceSlots = make(chan struct{}, 4)
 
 // feasFallback: a branch-feasibility query the primary z3 gave up on is put to the two other
 // solvers for a few seconds; they often refute in milliseconds what z3 4.8 times out on (FP mixed
